@@ -446,6 +446,11 @@ impl Session {
         let y = self.h - 2;
         let x0 = 1u16;
         let x1 = self.w - 35 - 2; // last column inside the main block
+        // the check reads the pinned layout (prompt `> ` at the left of the row above the bottom
+        // border); on a tree that draws the field elsewhere it is not made rather than mis-made
+        if buf.get(x0, y).symbol != ">" || buf.get(x0 + 1, y).symbol != " " {
+            return Ok(());
+        }
         let mut cursors: Vec<u16> = vec![];
         for x in x0..=x1 {
             let c = buf.get(x, y);
